@@ -810,6 +810,44 @@ impl Check for LspCheck {
                         run_session(mode, &DOCS2, &acts, false, ctx, true, &[]);
                     }
                 }
+                // directed histories (one per unit, so that they do not depend on chance): a document is opened,
+                // changed j times (protocol versions 2..j+1), its tab closed and opened again (version 1), changed
+                // again (version 2 < j+1), and another document is touched in between or afterwards
+                {
+                    let d = (unit % 3) as usize;
+                    let j = 1 + ((unit / 3) % 3) as usize;
+                    let new = |doc: usize, inc: bool, faulty: bool| Action { doc, include_next: inc, faulty, resend: false, reflow: false, reopen: false, revert: false, fixed_text: None };
+                    let mut acts = vec![new(d, d < 2, true)];
+                    for i in 0..j {
+                        acts.push(new(d, d < 2, i % 2 == 0));
+                    }
+                    if (unit / 9) % 2 == 0 {
+                        acts.push(new((d + 1) % 3, false, true));
+                    }
+                    acts.push(Action { reopen: true, ..new(d, d < 2, true) });
+                    acts.push(new(d, false, true));
+                    acts.push(new((d + 2) % 3, (d + 2) % 3 < 2, false));
+                    acts.push(new(d, d < 2, false));
+                    ctx.feature("directed_reopen_sessions");
+                    let docs: &[&str] = if unit % 2 == 0 { &DOCS3 } else { &DOCS3_ODD };
+                    run_session(mode, docs, &acts, true, ctx, false, &[]);
+                    // reflow: the faulty text, then the same bytes with the diagnostic moved to another line, twice
+                    let reflow = Action { reflow: true, ..new(d, false, true) };
+                    let acts = vec![new(d, d < 2, true), reflow.clone(), new((d + 1) % 3, false, j % 2 == 0), reflow.clone(), reflow];
+                    ctx.feature("directed_reflow_sessions");
+                    run_session(mode, docs, &acts, true, ctx, false, &[]);
+                    // revert: an included document is opened, edited, brought back to exactly its on-disk text, then
+                    // the including document is edited
+                    let inc = 1 + (unit % 2) as usize;
+                    let revert = Action { revert: true, ..new(inc, inc < 2, true) };
+                    let acts = vec![new(inc - 1, true, false), new(inc, inc < 2, true), new(inc, false, j % 2 == 0), revert, new(inc - 1, true, true), new(inc - 1, true, false)];
+                    ctx.feature("directed_revert_sessions");
+                    run_session(mode, docs, &acts, true, ctx, false, &[]);
+                    // a new, unsaved file: included before it exists anywhere, then opened, then its includer edited
+                    let acts = vec![new(inc - 1, true, j % 2 == 0), new(inc, false, true), new(inc - 1, true, false), new(inc, inc < 2, false), new(inc - 1, true, true)];
+                    ctx.feature("directed_unsaved_sessions");
+                    run_session(mode, docs, &acts, true, ctx, false, &[inc]);
+                }
                 // random longer histories over three documents (chain a -> b -> c)
                 let pool3 = action_pool_wide(3);
                 let mut rng = Rng::derive(ctx.seed, 0x1100 + mode as u64, unit);
@@ -856,7 +894,7 @@ impl Check for LspCheck {
     fn rule(&self) -> String {
         match self.mode {
             LMode::Locations => "generated multi-file workspaces (G-prog: root + 1-2 included files with different line structure, half with non-ASCII text, a quarter CRLF, a quarter with LF and CRLF mixed line by line (including empty lines, so CRLF is directly followed by LF), half with a dead use, half with one seeded semantic fault) written to a per-session directory; the real server is driven over JSON-RPC in process (didOpen of the root, logical quiescence through hook counters + barrier requests). For up to 60 (thorough 200) identifier positions (uses and declarations, in every file): textDocument/definition and textDocument/references; for every file: documentSymbol (range and selectionRange of every node), foldingRange (lines), documentLink (range + target URI), inlayHint (positions); publishDiagnostics per URI. Each answer must equal the ide-level result for the same texts with every (file, byte range) converted by refpos USING THE TEXT OF THE FILE THE RANGE BELONGS TO. non-trivial = every workspace; distinct by digest".into(),
-            LMode::Converge => "sessions over documents a.td (-> b.td (-> c.td)); every text version carries uniquely named classes and, if faulty, a uniquely named undefined parent, and includes the next document or not; disk is rewritten with the same text before each message (so C12 cannot interfere). EXHAUSTIVE: all histories of length <= 3 (thorough 4) over the 10-action pool of two documents (8 new texts - the second document may include the first one back, an include cycle - and a resend of the unchanged text per document), each run twice: checked at every quiescent prefix, and sent as a burst and checked at the end. RANDOM: histories of 4-8 actions over three documents (half of the sessions with file names a file: URI must percent-encode: blank, '#', '%', brackets, non-ASCII), drawn from the same pool plus a 'reflow' (the previous text with one blank turned into a line break: all byte offsets stay, line/column of the diagnostic moves) a 're-opened tab' (didClose + didOpen, protocol version numbers restart at 1) and a 'revert' (the editor sends exactly the on-disk text); a third of the sessions has one document that exists only in the editor (never on disk: includes of it resolve only while it is open). At each quiescent point (all snapshot tasks ended by hook counters, then barrier requests): for every file of the final workspace the last published diagnostics equal those of a fresh analysis of the reference session state (refpos-converted); every URI ever published that is not in the final workspace has an empty last publication; versions per URI never decrease (checked on the arrival order of the notification stream). non-trivial = every session; distinct by action sequence".into(),
+            LMode::Converge => "sessions over documents a.td (-> b.td (-> c.td)); every text version carries uniquely named classes and, if faulty, a uniquely named undefined parent, and includes the next document or not; disk is rewritten with the same text before each message (so C12 cannot interfere). EXHAUSTIVE: all histories of length <= 3 (thorough 4) over the 10-action pool of two documents (8 new texts - the second document may include the first one back, an include cycle - and a resend of the unchanged text per document), each run twice: checked at every quiescent prefix, and sent as a burst and checked at the end. DIRECTED: one history per unit in which a document is opened, changed 1-3 times, closed and opened again (protocol version back to 1) and changed again, with other documents touched in between. RANDOM: histories of 4-8 actions over three documents (half of the sessions with file names a file: URI must percent-encode: blank, '#', '%', brackets, non-ASCII), drawn from the same pool plus a 'reflow' (the previous text with one blank turned into a line break: all byte offsets stay, line/column of the diagnostic moves) a 're-opened tab' (didClose + didOpen, protocol version numbers restart at 1) and a 'revert' (the editor sends exactly the on-disk text); a third of the sessions has one document that exists only in the editor (never on disk: includes of it resolve only while it is open). At each quiescent point (all snapshot tasks ended by hook counters, then barrier requests): for every file of the final workspace the last published diagnostics equal those of a fresh analysis of the reference session state (refpos-converted); every URI ever published that is not in the final workspace has an empty last publication; versions per URI never decrease (checked on the arrival order of the notification stream). non-trivial = every session; distinct by action sequence".into(),
             LMode::Buffers => "same session space as C11, but the disk holds texts the editor never sends (faulty, including the next document, marked _disk_) while the editor sends texts marked _ed_: reference session = disk overlaid by open buffers, root = last touched document. At each quiescent point the undefined-class markers named by the last published diagnostics of workspace files must be exactly those of the reference session, and documentSymbol of every workspace document must list exactly the classes its current reference text declares (an open document reached only through an include must show its editor text; a never-opened one its disk text). non-trivial = every session".into(),
         }
     }
@@ -867,7 +905,7 @@ impl Check for LspCheck {
                 vec![("workspaces", n), ("definition_cross_file", n), ("definition_same_file", n), ("references_requests", n * 10), ("non_ascii", n / 4), ("crlf", n / 10), ("mixed_line_terminators", n / 10), ("diagnostics_in_included_file", n / 20), ("documentLink_nonempty", n / 2), ("inlayHint_nonempty", n / 2)]
             }
             _ => {
-                let mut v = vec![("exhaustive_sessions", tier.pick(400, 2500)), ("random_sessions", tier.pick(150, 8000)), ("sessions_burst", 100), ("quiescent_points", tier.pick(1000, 20_000)), ("action:with-include", 500), ("action:resend-same-text", 200), ("action:reflow-same-byte-offsets", tier.pick(25, 500)), ("action:reopen-restarts-versions", tier.pick(25, 500)), ("sessions_with_percent_encoded_names", tier.pick(60, 1500)), ("sessions_with_unsaved_document", tier.pick(60, 1500))];
+                let mut v = vec![("exhaustive_sessions", tier.pick(400, 2500)), ("random_sessions", tier.pick(150, 8000)), ("sessions_burst", 100), ("quiescent_points", tier.pick(1000, 20_000)), ("action:with-include", 500), ("action:resend-same-text", 200), ("action:reflow-same-byte-offsets", tier.pick(25, 500)), ("action:reopen-restarts-versions", tier.pick(25, 500)), ("sessions_with_percent_encoded_names", tier.pick(60, 1500)), ("sessions_with_unsaved_document", tier.pick(60, 1500)), ("directed_reopen_sessions", tier.pick(90, 600))];
                 if self.mode == LMode::Buffers {
                     // (in C11 the disk always equals the editor text, so a revert is a resend there)
                     v.push(("action:revert-to-disk-text", tier.pick(10, 300)));
